@@ -113,6 +113,23 @@ CLAIMS = {
              "model, emits every (series, operation); replayed through process.trend (the argument handed to the callable is logged), "
              "linear_trend, normalize and the Weaver operations; TLC judges equality with the specification.",
         ref="DESIGN.md 4 (C14)", note=TB + "; trend callables are polynomials of degree <= 2 with rational coefficients"),
+    "C15": dict(
+        technique="TLA+ environment-step specification of Gaussian noise (Env.tla) model-checked by TLC; TLC trace validation of real runs recorded at the numpy.random.normal boundary",
+        text="The generator is an environment action: TLC checks on the model that the result differs from the signal exactly by the draw "
+             "and that scale^2 * SNR = mean(y^2) for decibel / linear / per-sample / std inputs on every lattice signal (incl. signals with "
+             "mean(y^2) # mean(y)^2), emits each behaviour, and judges the recorded real calls: exactly one draw with loc 0 and the "
+             "signal's shape, the scale rule (exact when the scale is rational, else bracketed at ~0.1%), result = signal + draw, x and "
+             "length unchanged through the Weaver, identical results under a fixed NumPy seed. The statistical clause (empirical SNR of a "
+             "long series) is NOT decided: it is outside what the specification can evaluate (DESIGN 6).",
+        ref="DESIGN.md 4 (C15), 6", note=TB + "; empirical-SNR statistics not covered (follows from the deterministic clauses + NumPy's contract for normal(0, scale))"),
+    "C16": dict(
+        technique="TLA+ environment-step constraint for spline smoothing (Env.tla; lemmas model-checked by TLC); TLC evaluates the smoothing-condition clauses on recorded real runs",
+        text="FITPACK is an environment step constrained by the property: TLC checks the constraint's lemmas on a small lattice and "
+             "evaluates on every recorded run (series of 5..200 points, s in {0} U [1e-4, 1e2], affine data) that x and the length are kept, "
+             "the summed squared deviation stays within s (0.2% + projection slack), s = 0 and affine data give the identity, omitting s "
+             "equals s = len(y)*var(y), the condition is forwarded unchanged, and to_function() interpolates the samples; runs with FITPACK "
+             "warnings are discarded.",
+        ref="DESIGN.md 4 (C16), 6", note=TB + "; spline values are constrained, not recomputed; deviations are rescaled to integers by the harness"),
     "C17": dict(
         technique="TLA+ specification of the array helpers / interval view / average (Arrays.tla) model-checked by TLC; TLC trace validation of replayed real calls",
         text="TLC checks the round trip average(oversample) = identity, every-n-th-position and extension theorems on every lattice "
